@@ -3,6 +3,8 @@ CONSTANTS
   MaxItems = 7
   WireWeight = 25
   WithAC = FALSE
+  Randomised = TRUE
+  MaxLabels = 0
   MinItems = 3
   Syms = {"R", "G", "Z", "C", "L", "V", "I", "ACV", "ACI", "CV", "CI", "RectV", "RectI"}
 INVARIANT Check
